@@ -1130,6 +1130,9 @@ impl<'a> Gen<'a> {
         if !self.world.args.list && self.rng.chance(1, 8) {
             self.world.args.dashdash = true;
         }
+        if self.world.args.list && self.rng.chance(1, 2) {
+            self.world.args.split_globs = true;
+        }
         // a large file (over 1 MiB): not mentioned by the diff, so that the filler stays out of stdin
         for f in &mut self.world.files {
             if matches!(f.diff, FileDiff::None)
